@@ -30,8 +30,8 @@ pub struct PropDef {
 fn c01(tier: &str) -> PropDef {
     let quick = tier == "quick";
     let sweep_len = if quick { 3 } else { 4 };
-    let seeded = if quick { 30_000 } else { 600_000 };
-    let large = if quick { 16 } else { 600 };
+    let seeded = if quick { 30_000 } else { 1_800_000 };
+    let large = if quick { 16 } else { 1_800 };
     let families = vec![
         Family {
             name: "sweep",
@@ -72,7 +72,7 @@ fn c01(tier: &str) -> PropDef {
     let mut families = families;
     families.push(Family {
         name: "varint-boundary",
-        count: if quick { 60 } else { 3_000 },
+        count: if quick { 60 } else { 9_000 },
         make: Box::new(|seed, idx| {
             let mut r = Rng::stream(seed, "C01", idx, "varint");
             let mut g = G::new(idx);
@@ -313,7 +313,7 @@ fn c02(tier: &str) -> PropDef {
         rule: "case = one history (writer: sweep over the 9-letter alphabet and seeded 2-14 step traces incl. reopen and make_read_only; replica: honest proof applications with reopen steps) executed fault-free on a journalling SimDisk; then EVERY prefix of its mutating-storage-op journal is materialised, reopened with open(true) and fully scanned (length, byte_length, writeable, has/get of every index) and must equal the model snapshot before or after the interrupted call (strictly 'before' when no op of the call was persisted). A seeded third of the recovered cores then runs a 3-5 step suffix (with a reopen) under the C01 oracle; the thorough tier crashes a second time inside that suffix. Family multi-crash: writer histories in which the process dies repeatedly, each time losing the last 0-6 storage operations of the call in progress (recovery must be before-or-after each time and every later operation, reopen and full scan must satisfy the list model). distinct = distinct (history) hash; non-trivial = history with at least one mutating step (every one of them gets all its crash points).",
         assumptions: CRASH_ASSUME.to_vec(),
         families: {
-            let mut f = fault_families("C02", FaultKind::Crash { tear: false, double: !quick }, counts, if quick { 3 } else { 12 });
+            let mut f = fault_families("C02", FaultKind::Crash { tear: false, double: !quick }, counts, if quick { 3 } else { 4 });
             f.push(multi_crash_family(quick));
             f
         },
@@ -327,7 +327,7 @@ fn c07(tier: &str) -> PropDef {
         level: "fault_enumeration",
         rule: "same histories and oracle as C02, but at every crash point whose next journal op is a write of n bytes only a byte prefix j of it reaches the store: all j in 1..n-1 for n <= 64, otherwise j in {1,3,4,7,8,9,10,12,16,40..44,72..76,108..110, n-1,n-2,n-4,n-8,n-9,n-32,n-33,n-64,n-65, multiples of 512} plus 8 seeded cuts. Tearing lands over existing bytes (header slots are overwritten in place). distinct/non-trivial as for C02.",
         assumptions: CRASH_ASSUME.to_vec(),
-        families: fault_families("C07", FaultKind::Crash { tear: true, double: false }, counts, if quick { 3 } else { 12 }),
+        families: fault_families("C07", FaultKind::Crash { tear: true, double: false }, counts, if quick { 3 } else { 4 }),
     }
 }
 
@@ -341,7 +341,7 @@ fn c10(tier: &str) -> PropDef {
             "a failing storage operation has no effect on the store (the error is returned before anything is written)",
             "SimDisk implements the RandomAccess contract exactly as the stock backends do",
         ],
-        families: fault_families("C10", FaultKind::Io, counts, if quick { 3 } else { 12 }),
+        families: fault_families("C10", FaultKind::Io, counts, if quick { 3 } else { 4 }),
     }
 }
 
